@@ -52,12 +52,12 @@ ASSUMPTIONS = [
     'documented domain: targets are int32 in [0, num_classes); scores are '
     'finite float32 (or small int32 for the accuracy-type metrics, as in the '
     'docstring examples); example/prediction leaves are jnp arrays',
-    'cross-entropy metrics: logits restricted to |v| <= 1e30 so that the spread '
-    'of a row is finite in float32 (with a spread above float32 max, e.g. '
-    '[3e38, -3e38], log_softmax legitimately returns -inf for the losing class '
-    'and the one-hot product 0 * -inf gives NaN -- same mechanism as a -inf '
-    'logit, which DESIGN excludes from the CE domain); +-inf appears only in '
-    'logits masks',
+    'cross-entropy metrics in the general checks: logits restricted to '
+    '|v| <= 1e30 so that every per-token loss is finite in float32; rows whose '
+    'spread exceeds the float32 range (e.g. [3e38, -3e38]) or that hold -inf at '
+    'non-target classes are covered by the dedicated check ce_wide_range with '
+    'the target at a row maximum (finite loss); the 0 * -inf = NaN defect there '
+    'was fixed in cea1b0b',
     'cross-entropy reference: float64, max-shifted log-sum-exp with the shift '
     'applied to the target logit before subtracting (no absorption at 1e30); '
     'tolerance 1e-5 * max(1, |reference|) on accum and result (float32 '
@@ -888,6 +888,86 @@ def per_domain_labels(case):
   return ls
 
 
+# ---------------------------------------------------- CE over the whole range
+
+WIDE = [3.0e38, -3.0e38, 1.0e38, -1.0e38, 2.5e38, 0.0, 1.0, -1.0, 88.0, '-inf']
+
+
+def _wide_val(v):
+  return -np.inf if v == '-inf' else float(np.float32(v))
+
+
+def run_ce_wide(case):
+  """Cross entropy on rows whose spread exceeds the float32 range (or holds -inf
+  at non-target classes): the loss is -log softmax(row)[t]; with the target at a
+  maximum of the row it is log(#ties at the maximum) -- finite, never NaN."""
+  rows = [[_wide_val(v) for v in row] for row in case['rows']]
+  targets = case['targets']
+  from fedjax.core import metrics as M
+  want_tok = []
+  for row, t in zip(rows, targets):
+    r64 = np.asarray(row, np.float64)
+    shifted = r64 - r64.max()
+    want_tok.append(float(np.log(np.sum(np.exp(shifted))) - shifted[t]))
+  if len(rows) == 1 and case['metric'] == 'CrossEntropyLoss':
+    st_ = M.CrossEntropyLoss().evaluate_example(
+        {'y': jnp.asarray(targets[0], jnp.int32)}, jnp.asarray(rows[0], jnp.float32))
+    got = float(st_.accum)
+    require(np.isfinite(got) and abs(got - want_tok[0]) <= 1e-5 * max(1.0, abs(want_tok[0])),
+            'ce_wide:CrossEntropyLoss:accum', f'rows {case["rows"]} target {targets}: {got} vs {want_tok[0]}')
+    return ['single']
+  ex = {'y': jnp.asarray(targets, jnp.int32)}
+  pred = jnp.asarray(rows, jnp.float32)
+  masked = tuple(case['masked'])
+  w = np.array([0.0 if t in masked else 1.0 for t in targets])
+  if case['metric'] == 'SequenceTokenCrossEntropyLoss':
+    st_ = M.SequenceTokenCrossEntropyLoss(masked_target_values=masked).evaluate_example(ex, pred)
+    want_acc, want_w = float(np.dot(want_tok, w)), float(w.sum())
+  else:
+    st_ = M.SequenceCrossEntropyLoss(masked_target_values=masked).evaluate_example(ex, pred)
+    want_acc, want_w = float(np.dot(want_tok, w)), float(w.sum() > 0)
+  got_acc, got_w = float(st_.accum), float(st_.weight)
+  if want_w == 0:
+    want_acc = 0.0
+  require(np.isfinite(got_acc) and abs(got_acc - want_acc) <= 1e-5 * max(1.0, abs(want_acc)),
+          'ce_wide:' + case['metric'] + ':accum',
+          f'rows {case["rows"]} targets {targets} masked {masked}: {got_acc} vs {want_acc}')
+  require(got_w == want_w, 'ce_wide:' + case['metric'] + ':weight', f'{got_w} vs {want_w}')
+  return ['sequence']
+
+
+@st.composite
+def ce_wide_strategy(draw, tier):
+  c = draw(st.sampled_from([2, 3, 5]))
+  metric = draw(st.sampled_from(['CrossEntropyLoss', 'SequenceTokenCrossEntropyLoss',
+                                 'SequenceCrossEntropyLoss']))
+  t_len = 1 if metric == 'CrossEntropyLoss' else draw(st.sampled_from([1, 2, 3]))
+  rows, targets = [], []
+  for _ in range(t_len):
+    row = draw(st.lists(st.sampled_from(WIDE), min_size=c, max_size=c))
+    vals = [_wide_val(v) for v in row]
+    if not np.isfinite(max(vals)):
+      row[0] = 0.0
+      vals = [_wide_val(v) for v in row]
+    top = [i for i, v in enumerate(vals) if v == max(vals)]
+    rows.append(row)
+    targets.append(draw(st.sampled_from(top)))   # target at a maximum: finite loss
+  masked = draw(st.sampled_from([[], [0], [1], [0, 1]]))
+  return {'metric': metric, 'rows': rows, 'targets': targets, 'masked': masked}
+
+
+def ce_wide_labels(case):
+  ls = ['metric:' + case['metric']]
+  for row in case['rows']:
+    vals = [_wide_val(v) for v in row]
+    fin = [v for v in vals if np.isfinite(v)]
+    if '-inf' in row:
+      ls.append('minus_inf_logit')
+    if fin and max(fin) - min(fin) > 3.4e38:
+      ls.append('spread_exceeds_float32')
+  return sorted(set(ls))
+
+
 CHECKS = [
     Check(name='single_label', run=run_single_label,
           strategy=direct_strategy('single'),
@@ -928,4 +1008,11 @@ CHECKS = [
           doc='PerDomainMetric(base, D) for every base metric: own-domain row '
               '== base statistic, other rows zero; merged over 1-4 examples, '
               'row d == base metric (reference) on the examples of domain d'),
+    Check(name='ce_wide_range', run=run_ce_wide, strategy=ce_wide_strategy,
+          labels=ce_wide_labels,
+          nontrivial=lambda c, ls: 'spread_exceeds_float32' in ls or 'minus_inf_logit' in ls,
+          budget={'quick': 1600, 'thorough': 20000}, time_share=0.5,
+          doc='cross-entropy metrics on rows whose spread exceeds the float32 range '
+              'or that hold -inf at non-target classes (target at a row maximum): '
+              'finite and equal to the float64 reference (defect fixed in cea1b0b)'),
 ]
